@@ -225,8 +225,8 @@ class TilingMonitor(Monitor):
             return
         blocks = txt.split("Channel: ")[1:]
         for blk in blocks:
-            lines = blk.strip().split("\n")
-            n = lines[0].strip()
+            lines = blk.split("\n")
+            n = lines[0]  # (verbatim: a name may be empty or blank)
             c = snap["chans"].get(n)
             if c is None:
                 ctx.violation("str", f"str(seq) lists unknown channel {n}", "str")
